@@ -522,6 +522,16 @@ func jsonRulesMaker(c *rawCase) (lexer.Definition, string) {
 	if d == nil {
 		return nil, v
 	}
+	// the caller derives a variant from an earlier d.Rules() by editing it in place: a later d.Rules() is unaffected
+	for st, rs := range d.Rules() {
+		for i := range rs {
+			if rs[i].Pattern != "" {
+				rs[i].Pattern = "zzz" + rs[i].Pattern
+				rs[i].Name = "Edited" + rs[i].Name
+			}
+		}
+		_ = st
+	}
 	b, err := json.Marshal(d.Rules())
 	if err != nil {
 		return nil, "marshal: " + err.Error()
